@@ -21,7 +21,9 @@ func init() { vh.Register("C17", runC17) }
 
 var entNames = []string{"Foo", "foo", "fooBar", "FooBar", "foo_bar", "Foo_Bar", "FOO", "FooS", "F", "f", "ABc", "Foo2", "foo2bar",
 	"A1", "fooBAR", "FOOBar", "x", "a_b_c", "Widget", "userID", "HTTPServer", "Order_v2", "orderLine", "Thing1", "aB", "Ab", "AB", "iOS",
-	"foo_", "foo__bar", "FooEvent", "FooState", "State", "Keys", "fooKeys", "X9Y", "x9", "Z_", "camelCaseName", "snake_case_name", "SCREAMING_NAME"}
+	"foo_", "foo__bar", "FooEvent", "FooState", "State", "Keys", "fooKeys", "X9Y", "x9", "Z_", "camelCaseName", "snake_case_name", "SCREAMING_NAME",
+	// the entity's own property in the Get / List responses sits next to events / page
+	"Page", "Events", "Query"}
 
 var pkgNames = []string{"foo.v1", "foo.v1", "bar.baz.v2", "a.v1", "test.deep.pkg.v3"}
 
@@ -149,7 +151,36 @@ func genAnyField(r *vh.Rand, name string) uField {
 		}
 		u.Container = vh.Pick(r, []string{"array", "array", "map"})
 		// an optional array / map compiles to a proto3-optional repeated field (known finding)
-		u.Optional = !u.Required && r.Chance(4)
+		u.Optional = !u.Required && r.Chance(2)
+	}
+	return u
+}
+
+// genInline: a field whose type is an anonymous schema defined in place (nested in the message)
+func genInline(r *vh.Rand, name string) uField {
+	u := uField{Name: name, Required: r.Chance(20), Bang: r.Bool(), PType: 11}
+	simple := func(n int) []uField {
+		ns := nameSet{}
+		var out []uField
+		for i := 0; i < n; i++ {
+			f := genScalarField(r, ns.fresh(func() string { return genIdent(r, r.Intn(2)) }, snakeKey, lowerKey))
+			out = append(out, f)
+		}
+		return out
+	}
+	switch r.Intn(3) {
+	case 0:
+		u.Inline, u.J5Kind = "object", "object"
+		u.InFields = simple(r.Range(0, 3))
+	case 1:
+		u.Inline, u.J5Kind = "oneof", "oneof"
+		for _, f := range simple(r.Range(1, 3)) {
+			f.Required, f.Optional, f.SayFalse = false, false, false
+			u.InFields = append(u.InFields, f)
+		}
+	default:
+		u.Inline, u.J5Kind, u.PType = "enum", "enum", 14
+		u.InOptions = vh.Pick(r, [][]string{{"A", "B"}, {"LOW", "MID", "HIGH"}, {"UNSPECIFIED", "ON"}, {"X"}})
 	}
 	return u
 }
@@ -170,9 +201,12 @@ func genFields(r *vh.Rand, lo, hi int, reserved ...string) []uField {
 	var out []uField
 	for k := r.Range(lo, hi); k > 0; k-- {
 		name := ns.fresh(func() string { return genIdent(r, r.Intn(2)) }, snakeKey, lowerKey)
-		if r.Chance(20) {
+		switch {
+		case r.Chance(20):
 			out = append(out, genKeyTyped(r, name))
-		} else {
+		case r.Chance(7):
+			out = append(out, genInline(r, name))
+		default:
 			out = append(out, genAnyField(r, name))
 		}
 	}
@@ -205,7 +239,7 @@ func genEntityOpt(r *vh.Rand, second bool, forcedName string) *entityDecl {
 	// metadata / data / status / event next to the flattened keys in State and Event)
 	ks := nameSet{}
 	nKeys := r.Range(1, 4)
-	reservedKey := !second && r.Chance(7)
+	reservedKey := !second && r.Chance(5)
 	for i := 0; i < nKeys; i++ {
 		name := ks.fresh(func() string {
 			if reservedKey && i == 0 {
@@ -253,6 +287,19 @@ func genEntityOpt(r *vh.Rand, second bool, forcedName string) *entityDecl {
 			return vh.Pick(r, []string{"Active", "active", "inProgress", "Done2", "a_b", "Draft", "onHold"})
 		}, rawKey, lowerKey))
 	}
+	// two statuses that differ only in case: distinct symbols for the compiler, a conflict for
+	// protodesc.NewFiles (open enum, names compared after prefix trimming in PascalCase): known finding
+	if !second && r.Chance(3) {
+		base := d.Status[r.Intn(len(d.Status))]
+		variant := strings.ToUpper(base[:1]) + strings.ToLower(base[1:])
+		if variant == base {
+			variant = strings.ToUpper(base)
+		}
+		if variant != base && !ss[rawKey(variant)] {
+			ss[rawKey(variant)] = true
+			d.Status = append(d.Status, variant)
+		}
+	}
 	// edge cases of visitEnumNode/addValue: a first status ending in UNSPECIFIED takes slot 0,
 	// a status that already carries the prefix keeps its name
 	if r.Chance(8) {
@@ -264,11 +311,22 @@ func genEntityOpt(r *vh.Rand, second bool, forcedName string) *entityDecl {
 			d.Status = append(d.Status, pre)
 		}
 	}
+	// explicit option numbers: the parser accepts `status X { number = 5 }`; visitEnumNode numbers by
+	// POSITION, so a declared number must not show in the enum (only a first status that ends in
+	// UNSPECIFIED and declares a number loses slot 0: malformed stream)
+	if r.Chance(25) {
+		d.StatusNum = make([]int, len(d.Status))
+		for i := range d.Status {
+			if r.Chance(60) && !(i == 0 && strings.HasSuffix(d.Status[0], "UNSPECIFIED")) {
+				d.StatusNum[i] = vh.Pick(r, []int{1, 2, 3, 5, 7, 9, 12, 40})
+			}
+		}
+	}
 	// events
 	es := nameSet{}
 	for k := r.Range(0, 3); k > 0; k-- {
 		name := es.fresh(func() string {
-			if !second && r.Chance(3) {
+			if !second && r.Chance(1) {
 				// its oneof option "type" sits next to the proto oneof "type" of the wrapper
 				return "Type"
 			}
@@ -314,7 +372,7 @@ func genEntityOpt(r *vh.Rand, second bool, forcedName string) *entityDecl {
 			}
 			var parts []string
 			for _, f := range m.Request {
-				if f.Container == "" && f.Ext == "" && r.Chance(50) {
+				if f.Container == "" && f.Ext == "" && f.Inline == "" && r.Chance(50) {
 					if r.Chance(40) {
 						parts = append(parts, vh.Pick(r, []string{"do", "items", "sub_path", "x"}))
 					}
@@ -378,13 +436,24 @@ func genEntityOpt(r *vh.Rand, second bool, forcedName string) *entityDecl {
 		if r.Chance(50) {
 			enumName = vh.Pick(r, []string{"Kind", "Colour", "level_type", "Mode"}) + d.schemaSuffix()
 			opts := [][]string{{"A", "B"}, {"RED", "GREEN", "DARK_BLUE"}, {"LOW"}, {"UNSPECIFIED", "ON", "OFF"}}
-			d.Schemas = append(d.Schemas, eSchema{Kind: 2, Name: enumName, Options: vh.Pick(r, opts)})
+			en := eSchema{Kind: 2, Name: enumName, Options: vh.Pick(r, opts)}
+			if r.Chance(30) {
+				en.OptionNum = make([]int, len(en.Options))
+				for i := 1; i < len(en.Options); i++ {
+					en.OptionNum[i] = vh.Pick(r, []int{1, 4, 6, 9})
+				}
+			}
+			d.Schemas = append(d.Schemas, en)
 		}
 		if r.Chance(40) {
 			oneofName = vh.Pick(r, []string{"Choice", "Payload", "Either"}) + d.schemaSuffix()
 			var opts []uField
 			for _, f := range genFields(r, 1, 3) {
 				f.Required, f.Optional, f.SayFalse, f.Container = false, false, false, ""
+				if f.Inline != "" {
+					f = genScalarField(r, f.Name)
+					f.Required, f.Optional, f.SayFalse = false, false, false
+				}
 				opts = append(opts, f)
 			}
 			if pos := r.Intn(len(d.Schemas) + 1); true {
@@ -506,19 +575,26 @@ func emptyMethod(name, path string) eMethod {
 }
 
 var negClasses = []negClass{
-	{"optional-required", 4, func(r *vh.Rand, d *entityDecl) {
-		// buildProperty: a field cannot be both required (or a primary key) and optional
-		switch {
-		case len(d.Data) > 0 && r.Bool():
-			d.Data[0].Required, d.Data[0].Optional = true, true
-		case len(d.Events) > 0 && len(d.Events[0].Fields) > 0 && r.Bool():
-			d.Events[0].Fields[0].Required, d.Events[0].Fields[0].Optional = true, true
-		default:
-			k := &d.Keys[r.Intn(len(d.Keys))]
-			if !k.Key {
-				k.uField = genKeyTyped(r, k.Name)
-			}
-			k.Primary, k.Foreign, k.Optional, k.Required = true, nil, true, false
+	// buildProperty: a field cannot be both required and optional ...
+	{"optional-required-data", 4, func(r *vh.Rand, d *entityDecl) {
+		f := genScalarField(r, "bothWays")
+		f.Required, f.Optional = true, true
+		d.Data = append(d.Data, f)
+	}},
+	{"optional-required-event-field", 4, func(r *vh.Rand, d *entityDecl) {
+		f := genScalarField(r, "bothWays")
+		f.Required, f.Optional = true, true
+		d.Events = append(d.Events, eEvent{Name: "WithBoth", Fields: []uField{f}})
+	}},
+	// ... and a PRIMARY key is required, so `key x ? key:id62 { primary = true }` is the same clash
+	{"primary-optional-key", 4, func(r *vh.Rand, d *entityDecl) {
+		k := eKey{uField: genKeyTyped(r, "optPrimary")}
+		k.Primary, k.Foreign, k.Optional, k.Required, k.Bang = true, nil, true, false, r.Bool()
+		k.Shard = r.Bool()
+		if r.Bool() {
+			d.Keys = append(d.Keys, k)
+		} else {
+			d.Keys = append([]eKey{k}, d.Keys...)
 		}
 	}},
 	{"dangling-reference", 3, func(r *vh.Rand, d *entityDecl) {
@@ -566,6 +642,15 @@ var negClasses = []negClass{
 	{"status-unspecified-not-first", 6, func(r *vh.Rand, d *entityDecl) {
 		// only a FIRST option ending in UNSPECIFIED takes slot 0; later it repeats the generated zero value
 		d.Status = []string{vh.Pick(r, []string{"ACTIVE", "NEW"}), "DONE", "UNSPECIFIED"}
+		d.StatusNum = nil
+		if d.Query != nil {
+			d.Query.DefaultStatus = nil
+		}
+	}},
+	{"unspecified-first-with-number", 6, func(r *vh.Rand, d *entityDecl) {
+		// a first status ending in UNSPECIFIED takes slot 0 only when it declares no number
+		d.Status = []string{"UNSPECIFIED", "ACTIVE", "DONE"}
+		d.StatusNum = []int{vh.Pick(r, []int{1, 3, 7}), 0, 0}
 		if d.Query != nil {
 			d.Query.DefaultStatus = nil
 		}
@@ -609,7 +694,7 @@ var negClasses = []negClass{
 		d.Commands = append(d.Commands, eCommand{Name: ptr("Twins"), Methods: []eMethod{emptyMethod("SameOp", "a"), emptyMethod("SameOp", "b")}})
 	}},
 	{"no-status", 7, func(r *vh.Rand, d *entityDecl) {
-		d.Status = nil
+		d.Status, d.StatusNum = nil, nil
 		if d.Query != nil {
 			d.Query.DefaultStatus = nil
 		}
@@ -678,7 +763,7 @@ func runC17(cfg *vh.Config) error {
 		decls = append(decls, &fileDecl{Ents: []*entityDecl{d}})
 		kinds = append(kinds, "fixed-name")
 	}
-	nGen := cfg.Scale(160, 4000)
+	nGen := cfg.Scale(130, 3000)
 	for i := 0; i < nGen; i++ {
 		d := genEntity(r)
 		if r.Chance(20) {
@@ -697,6 +782,28 @@ func runC17(cfg *vh.Config) error {
 		decls = append(decls, &fileDecl{Ents: []*entityDecl{d}})
 		kinds = append(kinds, "zero-keys")
 	}
+	// outside the quantifier too: list-request settings in the query block. The real compiler PANICS
+	// (SetExtension of (j5.list.v1.list_request) on MethodOptions: cmpb's known C07 finding) unless a
+	// walker error comes first; the model returns Panic in exactly those cases
+	for i := 0; i < cfg.Scale(4, 40); i++ {
+		d := genEntityOpt(r, true, "")
+		d.second = false
+		if d.Query == nil {
+			d.Query = &eQuery{}
+		}
+		d.Query.ListRequest = 1 + i%2
+		kind := "list-request-settings"
+		switch i % 4 {
+		case 2:
+			d.Query.DefaultStatus = append(d.Query.DefaultStatus, "NO_SUCH_STATUS")
+			wantErr[len(decls)] = 1
+			kind = "list-request-settings+unknown-default-status"
+		case 3:
+			d.Data = append(d.Data, uField{Name: "dangling", Obj: "NoSuchType", PType: 11, J5Kind: "object"})
+		}
+		decls = append(decls, &fileDecl{Ents: []*entityDecl{d}})
+		kinds = append(kinds, kind)
+	}
 	nBad := cfg.Scale(2*len(negClasses), 14*len(negClasses))
 	for i := 0; i < nBad; i++ {
 		d, c := genMalformed(r, i)
@@ -708,7 +815,7 @@ func runC17(cfg *vh.Config) error {
 				a, b := squash(first.Name), squash(d.Name)
 				return a == "" || strings.HasPrefix(a, b) || strings.HasPrefix(b, a)
 			}
-			for first.pathKeyReserved() || first.summaryUpsert() || first.eventNamedType() || clash() {
+			for first.pathKeyReserved() || first.summaryUpsert() || first.eventNamedType() || first.namedLikeResponseField() || clash() {
 				first = genEntityOpt(r, false, "")
 			}
 			first.Commands, first.Summaries = nil, nil
@@ -731,14 +838,20 @@ func runC17(cfg *vh.Config) error {
 		in := map[string]any{"j5s": text}
 		wantClass, malformed := wantErr[i]
 		if out.panicked != nil {
-			res.Fail(vh.Failure{Case: caseNo, Stream: "entity", Sig: "C17 compiler panic on entity declaration", Clause: "entity expansion is total", Input: in, Got: fmt.Sprint(out.panicked)})
+			res.Count("compiler_panic")
+			if !strings.HasPrefix(kinds[i], "list-request-settings") {
+				res.Fail(vh.Failure{Case: caseNo, Stream: "entity", Sig: "C17 compiler panic on entity declaration", Clause: "entity expansion is total", Input: in, Got: fmt.Sprint(out.panicked)})
+			}
+			// the model must predict the panic (c17_check: Panic <-> errc 100)
+			cf.Terms = append(cf.Terms, fmt.Sprintf("EC %s false 100 [] false []", d.coq()))
+			res.Cases = append(res.Cases, vh.CaseRec{Case: caseNo, Stream: "entity", Input: in, Impl: map[string]any{"ok": false, "panic": fmt.Sprint(out.panicked)}})
 			caseNo++
 			continue
 		}
 		ok := out.err == nil
 		errc := 0
 		var lines []line
-		inQuant := !malformed && kinds[i] != "zero-keys"
+		inQuant := !malformed && kinds[i] != "zero-keys" && !strings.HasPrefix(kinds[i], "list-request-settings")
 		if ok {
 			lines = out.dump.Lines
 			res.Count("compiled_ok")
@@ -763,6 +876,8 @@ func runC17(cfg *vh.Config) error {
 					sig = "C17 entity name ending in a capital fails to compile: type <Name>State/Event/EventType not found (entity.go naming)"
 				case errc == 6 && anyEnt(d, (*entityDecl).pathKeyReserved):
 					sig = "C17 primary/shard key named page or query collides with the pagination field acceptQuery adds to the List/Events request: link error symbol already defined"
+				case errc == 6 && anyEnt(d, (*entityDecl).namedLikeResponseField):
+					sig = "C17 entity named page (or events with eventsInGet) collides with the page (events) property next to the entity's own property in the generated List (Get) response: link error symbol already defined"
 				case errc == 6 && anyEnt(d, (*entityDecl).eventNamedType):
 					sig = "C17 event whose oneof option is named type collides with the proto oneof type of the EventType wrapper: link error symbol already defined"
 				case errc == 6 && anyEnt(d, (*entityDecl).summaryUpsert):
@@ -845,7 +960,7 @@ func runC17(cfg *vh.Config) error {
 		Type:   "strcase_case",
 		Check:  "strcase_check",
 	}
-	scf.Terms = strcaseStream(cfg, r.Fork("strcase"), res, cfg.Scale(1000, 20000), &caseNo, distinct)
+	scf.Terms = strcaseStream(cfg, r.Fork("strcase"), res, cfg.Scale(800, 15000), &caseNo, distinct)
 	// entity names used above are strcase inputs too
 	scShards, err := scf.WriteShards(cfg.Out, "sc", strcaseShard)
 	if err != nil {
@@ -881,6 +996,11 @@ func (d *entityDecl) pathKeyReserved() bool {
 		}
 	}
 	return false
+}
+
+func (d *entityDecl) namedLikeResponseField() bool {
+	n := strcase.ToSnake(strcase.ToLowerCamel(strcase.ToSnake(d.Name)))
+	return n == "page" || (n == "events" && d.Query != nil && d.Query.EventsInGet)
 }
 
 func (d *entityDecl) eventNamedType() bool {
@@ -943,6 +1063,8 @@ func errClass(err error) string {
 		return "duplicate summary name"
 	case strings.Contains(s, "belongs in a oneof and must be optional") || strings.Contains(s, "must be declared before synthetic oneofs"):
 		return "proto3-optional repeated field (optional array or map)"
+	case strings.Contains(s, "using open semantics has conflict"):
+		return "enum values that differ only in case"
 	case strings.Contains(s, "must contain at least one field declaration"):
 		return "proto oneof without members"
 	case strings.Contains(s, "unknown enum value"):
@@ -1040,7 +1162,7 @@ func oracleC17(res *vh.Result, caseNo int, d *entityDecl, dump *dumped, in any) 
 			fail("C17 status enum does not start with UNSPECIFIED = 0", "statuses are numbered in declaration order after UNSPECIFIED", fmt.Sprint(vals))
 		}
 		decl := d.Status
-		if len(decl) > 0 && strings.HasSuffix(decl[0], "UNSPECIFIED") {
+		if len(decl) > 0 && strings.HasSuffix(decl[0], "UNSPECIFIED") && (len(d.StatusNum) == 0 || d.StatusNum[0] == 0) {
 			decl = decl[1:]
 		}
 		if len(vals) != len(decl)+1 {
@@ -1193,6 +1315,98 @@ func oracleC17(res *vh.Result, caseNo int, d *entityDecl, dump *dumped, in any) 
 			fail("C17 Get path has parameters that are neither primary nor shard keys", "path parameters of Get", ql[1].Strs[3])
 		}
 	}
+	// the Get and Events requests hold every path key; a primary key is required there too
+	if query != nil && len(query.Method) == 3 {
+		for _, mi := range []int{0, 2} {
+			req := strings.TrimPrefix(query.Method[mi].GetInputType(), ".")
+			have := map[string]line{}
+			for _, l := range lines[req] {
+				if l.Tag == 2 {
+					have[l.Strs[0]] = l
+				}
+			}
+			for _, k := range d.Keys {
+				if !k.Key || !(k.Primary || k.Shard) {
+					continue
+				}
+				l, ok := have[strcase.ToSnake(k.Name)]
+				if !ok {
+					fail("C17 path key missing from the Get/Events request", "primary-key fields ... appear ... as the path parameters of Get and Events", req+"."+k.Name)
+				} else if k.Primary && l.Nums[3] != 1 {
+					fail("C17 primary key not required in the Get/Events request", "primary-key fields are required", req+"."+k.Name)
+				}
+			}
+		}
+	}
+	// every declared command service, with the declared methods
+	ci := 0
+	for _, s := range svc.Service {
+		sl := svcLines(svc.GetPackage(), 1, s)
+		if sl[0].Nums[1] != 2 {
+			continue
+		}
+		if ci < len(d.Commands) {
+			var want, got []string
+			for _, m := range d.Commands[ci].Methods {
+				want = append(want, m.Name+":"+fmt.Sprint(m.Verb))
+			}
+			for _, ml := range sl[1:] {
+				got = append(got, ml.Strs[0]+":"+fmt.Sprint(ml.Nums[0]))
+			}
+			if strings.Join(want, ",") != strings.Join(got, ",") {
+				fail("C17 command service methods differ from the declaration", "every declared command service", strings.Join(got, ","))
+			}
+		}
+		ci++
+	}
+	// the nested event messages hold the declared fields, in order
+	if et := findMsg(main, X+"EventType"); et != nil && len(et.NestedType) == len(d.Events) {
+		for i, ev := range d.Events {
+			var want, got []string
+			for _, f := range ev.Fields {
+				want = append(want, strcase.ToSnake(f.Name))
+			}
+			for _, f := range et.NestedType[i].Field {
+				got = append(got, f.GetName())
+			}
+			if strings.Join(want, ",") != strings.Join(got, ",") {
+				fail("C17 nested event message does not hold the declared fields", "0..n events with arbitrary fields / a nested message of that name", ev.Name+": "+strings.Join(got, ","))
+			}
+		}
+	}
+	// status values carry the prefix SCREAMING_SNAKE(entity)_STATUS_
+	if statusEnum != nil {
+		prefix := strcase.ToScreamingSnake(d.Name) + "_STATUS_"
+		for _, v := range statusEnum.Value {
+			if !strings.HasPrefix(v.GetName(), prefix) {
+				fail("C17 status value without the entity's status prefix", "statuses ... named from the entity name", v.GetName())
+			}
+		}
+	}
+	// each upsert message holds the summary's fields after the upsert metadata
+	upsertMsgs := 0
+	for _, s := range topic.Service {
+		sl := svcLines(topic.GetPackage(), 2, s)
+		if sl[0].Nums[1] != 3 || sl[0].Nums[2] != 3 || len(sl) != 2 {
+			continue
+		}
+		if upsertMsgs < len(d.Summaries) {
+			var got []string
+			for _, l := range lines[sl[1].Strs[1]] {
+				if l.Tag == 2 {
+					got = append(got, l.Strs[0])
+				}
+			}
+			want := []string{"upsert"}
+			for _, f := range d.Summaries[upsertMsgs].Fields {
+				want = append(want, strcase.ToSnake(f.Name))
+			}
+			if strings.Join(want, ",") != strings.Join(got, ",") {
+				fail("C17 upsert message does not hold upsert metadata + the summary's fields", "one upsert topic per summary", sl[1].Strs[1]+": "+strings.Join(got, ","))
+			}
+		}
+		upsertMsgs++
+	}
 	// topics
 	nUpsert, nEvent := 0, 0
 	for _, s := range topic.Service {
@@ -1316,5 +1530,44 @@ func countShape(res *vh.Result, e *entityDecl) {
 	}
 	if e.BaseURL != "" {
 		res.Count("with_base_url_override")
+	}
+	kinds := map[string]bool{}
+	var walk func(fs []uField)
+	walk = func(fs []uField) {
+		for _, f := range fs {
+			switch {
+			case f.Inline != "":
+				kinds["inline_"+f.Inline] = true
+			case f.Container != "":
+				kinds[f.Container] = true
+			case f.Ext != "":
+				kinds["wkt_"+f.J5Type] = true
+			}
+			if f.Optional && f.Container != "" {
+				kinds["optional_container"] = true
+			}
+		}
+	}
+	for _, k := range e.Keys {
+		walk([]uField{k.uField})
+	}
+	walk(e.Data)
+	for _, ev := range e.Events {
+		walk(ev.Fields)
+	}
+	for _, c := range e.Commands {
+		for _, m := range c.Methods {
+			walk(m.Request)
+			walk(m.Response)
+		}
+	}
+	for _, sm := range e.Summaries {
+		walk(sm.Fields)
+	}
+	for _, sc := range e.Schemas {
+		walk(sc.Fields)
+	}
+	for k := range kinds {
+		res.Count("fieldkind_" + k)
 	}
 }
